@@ -3,6 +3,7 @@ CONSTANTS
   NSlots = 3
   MaxLen = 4
   WithMove = TRUE
+  CloneDeep = FALSE
 INIT Init
 NEXT Next
 INVARIANT Emit
